@@ -27,6 +27,11 @@ func genKVHistoryCase(modes []int, segs []int64, minB, maxB int, reopenWeight in
 				c.Steps = append(c.Steps, Step{K: "reopen"})
 				continue
 			}
+			if c.Cfg.Mode != 2 && rapid.IntRange(0, 24).Draw(t, "ismerge") == 13 {
+				// Merge (RAM index modes) must not change what the model says; it fails cleanly with fewer than 2 segments
+				c.Steps = append(c.Steps, Step{K: "merge"})
+				continue
+			}
 			nops := rapid.IntRange(1, shape.MaxOps).Draw(t, "nops")
 			st := Step{K: "tx", Managed: rapid.Bool().Draw(t, "managed")}
 			for j := 0; j < nops; j++ {
@@ -130,7 +135,7 @@ func pickOutcome(m *Model, op Op, r Res) (*Outcome, error) {
 
 // kvClasses classifies what a KV history exercised.
 type kvClass struct {
-	rotations, reopenThenRead, deadInRange, emptyVals, fills int
+	rotations, reopenThenRead, deadInRange, emptyVals, fills, merges int
 }
 
 func runKVModelCase(c Case, st *Stats, withSearch bool) error {
@@ -180,6 +185,14 @@ func runKVModelCase(c Case, st *Stats, withSearch bool) error {
 			for _, op := range s.Ops {
 				wrote[string(op.B)] = true
 			}
+		case "merge":
+			before := datFiles(dir)
+			if err := h.Merge(); err == nil && before >= 2 {
+				cl.merges++
+			}
+			if h.Dead {
+				return fmt.Errorf("step %d: Merge panicked", i)
+			}
 		case "reopen":
 			if err := h.Reopen(); err != nil {
 				return fmt.Errorf("step %d: reopen failed: %v", i, err)
@@ -215,6 +228,9 @@ func runKVModelCase(c Case, st *Stats, withSearch bool) error {
 	}
 	if cl.reopenThenRead > 0 {
 		classes = append(classes, "reopen-then-read")
+	}
+	if cl.merges > 0 {
+		classes = append(classes, "successful-merge-in-history")
 	}
 	if cl.deadInRange > 0 {
 		classes = append(classes, "expired-next-to-live")
